@@ -429,7 +429,7 @@ func checkLinkEvents(p *core.Program, r *core.Report) {
 		// the peer's endpoint ID
 		var idCall *ssa.Call
 		core.EachInstr(fn, func(in ssa.Instruction) {
-			if c, ok := in.(*ssa.Call); ok && c.Common().IsInvoke() && c.Common().Method.Name() == "GetPeerEndpointID" {
+			if c, ok := in.(*ssa.Call); ok && idCall == nil && c.Common().IsInvoke() && c.Common().Method.Name() == "GetPeerEndpointID" && !fromActiveSenders(c.Common().Value) {
 				idCall = c
 			}
 		})
@@ -465,6 +465,15 @@ func checkLinkEvents(p *core.Program, r *core.Report) {
 				if !ok || !((b.Op == token.EQL && cd.True) || (b.Op == token.NEQ && !cd.True)) {
 					continue
 				}
+				// a disappearance does not end the link while another active sender leads to the same peer
+				if !ev.live {
+					for _, pair := range [][2]ssa.Value{{b.X, b.Y}, {b.Y, b.X}} {
+						oc, isCall := pair[0].(*ssa.Call)
+						if isCall && oc != idCall && oc.Common().IsInvoke() && oc.Common().Method.Name() == "GetPeerEndpointID" && pair[1] == ssa.Value(idCall) && fromActiveSenders(oc.Common().Value) {
+							return true
+						}
+					}
+				}
 				for _, pair := range [][2]ssa.Value{{b.X, b.Y}, {b.Y, b.X}} {
 					var lk *ssa.Lookup
 					switch x := pair[0].(type) {
@@ -482,6 +491,17 @@ func checkLinkEvents(p *core.Program, r *core.Report) {
 				}
 			}
 			return false
+		}
+		if !ev.live {
+			// ... and that test exists: with two sessions to one neighbour (both sides dial, or two CLA kinds) the
+			// end of one of them must not mark the link as lost
+			okOther := false
+			for _, rt := range core.Returns(fn) {
+				if core.MustPassBefore(rt, func(i ssa.Instruction) bool { return i == ssa.Instruction(idCall) }) && alreadySo(rt) {
+					okOther = true
+				}
+			}
+			r.Check(okOther, key+"other-session-keeps-link", "a reported disappearance marks the link as lost only if no other active sender leads to the same peer (a neighbour is often connected by two sessions; the link is lost with the last one)", p.Pos(idCall.Pos()), "", "no early return under 'another active sender has this peer ID': the end of one of two sessions makes a live link cost the time since that moment, after the purge time the neighbour and everything behind it have no route")
 		}
 		what := "the peer's entry in peers.Peers is set to 0 (live link)"
 		if !ev.live {
@@ -504,4 +524,12 @@ func checkLinkEvents(p *core.Program, r *core.Report) {
 			r.Check(ok, key+c.name, c.rule, p.Pos(idCall.Pos()), "", d)
 		}
 	}
+}
+
+// fromActiveSenders: v is an element of the slice returned by cla.Manager.Sender().
+func fromActiveSenders(v ssa.Value) bool {
+	return core.DependsOn(v, func(x ssa.Value) bool {
+		c, ok := x.(*ssa.Call)
+		return ok && core.NameIs(core.CalleeName(c), claPkg+".Manager.Sender")
+	})
 }
